@@ -58,10 +58,10 @@ structure FInfo where
   err : Bool := false
 deriving Repr, Inhabited
 
-def FInfo.item (f : FInfo) (i : Nat) : Part × PExp :=
-  match f.fmap.find? (fun x => x.1 == i) with
-  | some x => (x.2.1, x.2.2)
-  | none => (default, default)
+/-- fulfillmentMap[i]; a missing entry is a zero-valued item in Go, whose nil amounts panic at first use:
+    the wager fails -/
+def FInfo.item (f : FInfo) (i : Nat) : Option (Part × PExp) :=
+  (f.fmap.find? (fun x => x.1 == i)).map fun x => (x.2.1, x.2.2)
 
 /-- MoveToHistorical + NextRound for one exposure of the participation being re-queued -/
 def rollOne (elig : Bool) (oddsCur idx : Nat) (acc : Book × PExp × List (Nat × Part × PExp)) (pe : PExp)
@@ -130,9 +130,8 @@ def secondaryOne (oddsCur : Nat) (thr : Int) (allExp : List PExp) (mults : List 
           ({ acc.1 with notFilled := wrapDec acc.1.notFilled }, b, acc.2.2)
         else acc
 
-/-- stage 1: decide and apply the fulfilment to the in-process item -/
-def stage1 (oddsCur : Nat) (oddsVal mult : Dec) (thr : Int) (f : FInfo) (i : Nat) : Part × PExp × Bool × FInfo :=
-  let pe := f.item i
+/-- stage 1: decide and apply the fulfilment to the in-process item `pe` -/
+def stage1 (oddsCur : Nat) (oddsVal mult : Dec) (thr : Int) (f : FInfo) (pe : Part × PExp) : Part × PExp × Bool × FInfo :=
   let avail := availLiq mult pe.1 pe.2
   let pp := f.payoutProfit.truncInt
   let d := decide1 oddsVal thr avail pp f.betAmount f.trunc
@@ -166,7 +165,9 @@ def stage3 (oddsCur : Nat) (x : Part × PExp × FInfo) : FInfo :=
 
 def visit (oddsCur : Nat) (oddsVal mult : Dec) (marketOdds : List Nat) (mults : List (Nat × Dec)) (thr : Int)
     (f : FInfo) (i : Nat) : FInfo :=
-  stage3 oddsCur (stage2 oddsCur marketOdds mults thr (stage1 oddsCur oddsVal mult thr f i))
+  match f.item i with
+  | none => { f with err := true }
+  | some pe => stage3 oddsCur (stage2 oddsCur marketOdds mults thr (stage1 oddsCur oddsVal mult thr f pe))
 
 /-- fulfillBetByParticipationQueue: the loop runs over the queue as read at the start of the wager -/
 def loop (oddsCur : Nat) (oddsVal mult : Dec) (marketOdds : List Nat) (mults : List (Nat × Dec)) (thr : Int)
@@ -212,15 +213,17 @@ def initExposures (idx : Nat) (b : Book) (oq : Nat × List Nat) : Book :=
   (b.setQueue oq.1 (oq.2 ++ [idx])).setExp
     { odds := oq.1, idx := idx, exposure := 0, bet := 0, fulfilled := false, round := 1 }
 
+/-- NewOrderBookParticipation for the next index of the book -/
+def Book.newPart (b : Book) (addr : Nat) (liquidity fee : Int) : Part :=
+  { idx := b.partCount + 1, addr := addr, liq := liquidity, fee := fee, crl := liquidity,
+    notFilled := b.oddsCount, totalBet := 0, crTotalBet := 0, maxLoss := 0, crMaxLoss := 0,
+    crMaxLossOdds := 0, actualProfit := 0 }
+
 /-- the book part of InitiateOrderBookParticipation -/
 def Book.addParticipation (b : Book) (addr : Nat) (liquidity fee : Int) : Book × Nat :=
-  let idx := b.partCount + 1
-  let p : Part := { idx := idx, addr := addr, liq := liquidity, fee := fee, crl := liquidity,
-                    notFilled := b.oddsCount, totalBet := 0, crTotalBet := 0, maxLoss := 0, crMaxLoss := 0,
-                    crMaxLossOdds := 0, actualProfit := 0 }
-  let b1 := b.setPart p
-  let b2 := b1.queues.foldl (initExposures idx) b1
-  ({ b2 with partCount := idx }, idx)
+  let b1 := b.setPart (b.newPart addr liquidity fee)
+  let b2 := b1.queues.foldl (initExposures (b.partCount + 1)) b1
+  ({ b2 with partCount := b.partCount + 1 }, b.partCount + 1)
 
 /-- WithdrawableAmount: full mode takes everything withdrawable (must be positive), partial mode the requested
     amount (must not exceed the withdrawable amount) -/
